@@ -212,9 +212,10 @@ pub broadcast axiom fn axiom_map_lookup(m: Map<String, CelValue>, ks: String)
     ensures #[trigger] map_lookup(m, ks@) == (if m.contains_key(ks) { Some(m[ks]) } else { None::<CelValue> });
 // a Vec of a non-zero-sized element type never holds more than isize::MAX elements (Rust's allocation limit)
 pub broadcast axiom fn axiom_vec_celvalue_len(v: Vec<CelValue>) ensures #[trigger] v@.len() <= isize::MAX;
+pub broadcast axiom fn axiom_vec_bytecode_len(v: Vec<ByteCode>) ensures #[trigger] v@.len() <= isize::MAX;
 }
 pub use ax::{into_iter_seq, map_lookup};
-broadcast use {vstd::std_specs::hash::group_hash_axioms, ax::axiom_string_key_model, ax::axiom_vec_into_iter_seq, ax::axiom_map_lookup, ax::axiom_vec_celvalue_len};
+broadcast use {vstd::std_specs::hash::group_hash_axioms, ax::axiom_string_key_model, ax::axiom_vec_into_iter_seq, ax::axiom_map_lookup, ax::axiom_vec_celvalue_len, ax::axiom_vec_bytecode_len};
 '''
 
 
